@@ -330,6 +330,10 @@ func runID1(m *Model, r *RuleResult) {
 				if n == "String" || n == "SVG" {
 					return true, true
 				}
+				// the text of a panic message, built with fmt.Sprintf / Errorf: a diagnostic (benign AA4: assertion helpers)
+				if ci, isCI := site.(ssa.CallInstruction); isCI && onlyFeedsPanic(ci.Value()) {
+					return true, false
+				}
 				return false, false
 			case strings.HasPrefix(full, "(*strings.Builder).Write"):
 				return true, false
@@ -436,6 +440,10 @@ func runID1(m *Model, r *RuleResult) {
 						allow(in, "dedup-key")
 						continue
 					}
+					if isSourceNodeTable(in.Map, in) {
+						allow(in, "dedup-key")
+						continue
+					}
 					report(in, "mapkey:"+in.Map.Type().String(), "an identifier is used as a map key (update): distinct nodes whose names collide with helper names are merged")
 				} else if in.Value == v {
 					report(in, "mapvalue", "an identifier is stored as a map value")
@@ -443,6 +451,10 @@ func runID1(m *Model, r *RuleResult) {
 			case *ssa.Lookup:
 				if in.Index == v {
 					if isLocalDedupMap(in.X) && inPopulate(in) {
+						allow(in, "dedup-key")
+						continue
+					}
+					if isSourceNodeTable(in.X, in) {
 						allow(in, "dedup-key")
 						continue
 					}
@@ -553,4 +565,72 @@ func runID1(m *Model, r *RuleResult) {
 	if len(tf) > 0 {
 		r.Notes = append(r.Notes, "identifier-carrying fields besides the ID fields: "+strings.Join(tf, ", "))
 	}
+}
+
+// onlyFeedsPanic: v (the result of a formatting call) is used for nothing but the argument of panic.
+func onlyFeedsPanic(v ssa.Value) bool {
+	if v == nil || v.Referrers() == nil {
+		return false
+	}
+	n := 0
+	for _, ref := range *v.Referrers() {
+		switch x := ref.(type) {
+		case *ssa.DebugRef:
+		case *ssa.Panic:
+			n++
+		case *ssa.MakeInterface:
+			if x.Referrers() == nil {
+				return false
+			}
+			for _, r2 := range *x.Referrers() {
+				switch r2.(type) {
+				case *ssa.Panic:
+					n++
+				case *ssa.DebugRef:
+				default:
+					return false
+				}
+			}
+		default:
+			return false
+		}
+	}
+	return n > 0
+}
+
+// isSourceNodeTable: the map is a name -> *Node table held by a builder of the public sources package (package graph): the
+// de-duplication table of a Populate implementation that lives in a helper struct instead of a local variable (benign AA2). It is only
+// ever keyed (never ranged): equality of input names, which every source needs.
+func isSourceNodeTable(mv ssa.Value, at ssa.Instruction) bool {
+	if shortPkg(pkgPathOf(at.Parent())) != "graph" {
+		return false
+	}
+	mt, ok := mv.Type().Underlying().(*types.Map)
+	if !ok || namedKey(derefType(mt.Elem())) != igNode {
+		return false
+	}
+	if b, ok := mt.Key().Underlying().(*types.Basic); !ok || b.Kind() != types.String {
+		return false
+	}
+	// loaded from a field of a struct of package graph, and no range over a map of that type anywhere in the package
+	u, ok := mv.(*ssa.UnOp)
+	if !ok || u.Op != token.MUL {
+		return false
+	}
+	if _, ok := u.X.(*ssa.FieldAddr); !ok {
+		return false
+	}
+	ranged := false
+	for _, f := range at.Parent().Pkg.Members {
+		fn, ok := f.(*ssa.Function)
+		if !ok {
+			continue
+		}
+		eachInstr(fn, func(in ssa.Instruction) {
+			if rg, ok := in.(*ssa.Range); ok && types.Identical(rg.X.Type(), mv.Type()) {
+				ranged = true
+			}
+		})
+	}
+	return !ranged
 }
